@@ -108,7 +108,10 @@ class LoopSpec:
                 fr.locals[n] = fresh_of_type(ctx, self.types[n], n)
         sf = self._frame(interp, fr)
         for m in self.modifies:
-            havoc_path(interp, sf, m, self.types)
+            try:
+                havoc_path(interp, sf, m, self.types)
+            except PyExc as pe:
+                raise Undecided("loop modifies %r cannot be evaluated: %r" % (m, pe.exc))
 
 
 def assigned_names(st):
@@ -614,9 +617,29 @@ class Builder:
             return True
         return bool(self.ctx.interp.exc_isinstance(self.outcome[1], cls))
 
-    def prove(self, label, clause, top=False, **env):
+    def prove(self, label, clause, top=False, props=None, **env):
         v = self.eval(clause, **env) if isinstance(clause, str) else clause
-        return self.ctx.prove("%s/%s" % (self.name, label), v, kind="clause", detail=clause if isinstance(clause, str) else label, top=top)
+        saved = Obl.cur_props
+        if props is not None:
+            Obl.cur_props = list(props)
+        try:
+            return self.ctx.prove("%s/%s" % (self.name, label), v, kind="clause", detail=clause if isinstance(clause, str) else label, top=top)
+        finally:
+            Obl.cur_props = saved
+
+    def only(self, *props):
+        """context manager: obligations generated inside belong to these properties only"""
+        b = self
+
+        class _Only:
+            def __enter__(self_):
+                self_.saved = Obl.cur_props
+                Obl.cur_props = list(props)
+
+            def __exit__(self_, *a):
+                Obl.cur_props = self_.saved
+                return False
+        return _Only()
 
     def ensures(self, clause, top=False, label=None, **env):
         """postcondition on normal return"""
@@ -663,6 +686,7 @@ def run_contract(prog_factory, con, max_paths=20000, budget_s=600):
     while True:
         prog = prog_factory()
         ctx = Ctx(prog, prefix)
+        ctx.cname = con.name
         B = Builder(ctx, con)
         try:
             con.fn(B)
